@@ -2,7 +2,7 @@
 
 Workload: ``MarkovChainSDE`` through the real standard engine and ``CouplingSDE`` through the real multilevel engine
 (fixed-level run, levels reached through the engine's own deepcopy / next_level chain), 1-d drivers (HEM, VG, CGMY with
-finite and infinite variation: maximum-step index 0 and > 0), coefficient functions Constant and DiagX, several x0.
+finite and infinite variation: maximum-step index 0 and > 0), coefficient functions Constant, DiagX and the time-dependent LiborSDEFunction (2-3 rates, fixing dates inside the horizon), several x0.
 The driver path every SDE path consumed is recorded where it is handed over (the chain's / the coupled chain's
 simulate call); the deterministic drifts of the chains are recorded level by level as the engine builds them.
 Oracle: Euler recursion on the recorded driver path, step by step, for the single process and for each component of
@@ -17,7 +17,7 @@ from simkit import rngseam
 from simkit.world import sub_rng, HarnessError
 
 ID = "C16"
-RULE = ("one world per seed: driver (hem / vg / cgmy y=0.2 / cgmy y=1.2), coefficient (Constant c | DiagX), x0, grid step, "
+RULE = ("one world per seed: driver (hem / vg / cgmy y=0.2 / cgmy y=1.2), coefficient (Constant c | DiagX | LiborSDEFunction with 2-3 rates and fixing dates inside the horizon), x0, grid step, "
         "maturity, engine (standard with MarkovChainSDE | multilevel fixed-level with CouplingSDE, max level 1-3), 3-12 "
         "paths per level, variates from the seeded per-context generators. non-trivial = SDE path with >=3 time points; "
         "distinct = hash(driver, coefficient, engine, levels, step-count pattern)")
@@ -31,7 +31,7 @@ ASSUMPTIONS = ["the driver paths are taken as given (their structure is C15, the
 TIERS = {
     "quick": {"worlds": 300, "wall": 500, "shrink_budget": 40,
               "required_probes": ["c16.single_path_checked", "c16.coupled_path_checked", "c16.diag_coefficient",
-                                  "c16.maxstep_active", "c16.level_ge_2"]},
+                                  "c16.maxstep_active", "c16.level_ge_2", "c16.fixing_inside_the_horizon"]},
     "thorough": {"worlds": 8000, "wall": 3300, "shrink_budget": 100,
                  "required_probes": ["c16.single_path_checked", "c16.coupled_path_checked", "c16.diag_coefficient",
                                      "c16.maxstep_active", "c16.level_ge_2"]},
@@ -100,7 +100,8 @@ def _install():
 
 def generate(seed, tier="quick"):
     r = sub_rng(seed, "c16.scenario")
-    return {"world_seed": seed, "driver": r.choice(list(DRIVERS)), "coef": r.choice(["const", "const", "diag", "diag"]),
+    return {"world_seed": seed, "driver": r.choice(list(DRIVERS)), "coef": r.choice(["const", "diag", "diag", "libor", "libor"]),
+            "m": r.choice([2, 3]), "tenor_fracs": sorted(r.sample([0.15, 0.3, 0.45, 0.6, 0.75, 0.9, 1.2, 1.5], 4)),
             "c": r.choice([1.0, 0.5, -2.0]), "x0": r.choice([1.0, 0.03, 100.0]), "h": r.choice([0.1, 0.05, 0.2]),
             "maturity": r.choice([0.25, 1.0]), "engine": r.choice(["standard", "mlmc", "mlmc"]),
             "max_level": r.choice([1, 2, 3]), "n": r.choice([3, 6, 12]), "seed": r.choice([None, 11])}
@@ -128,14 +129,27 @@ def shrink_candidates(sc):
         yield mod(h=0.2)
 
 
-def _euler(x0, coef, c, mu, times, dW, dL):
-    xs = [x0]
-    x = x0
+SIGMA = np.array([0.5, 0.8, 1.0])
+X0_LIBOR = np.array([0.02, 0.025, 0.03])
+
+
+def _euler(x0, coef, c, mu, times, dW, dL, tenors=None):
+    """independent Euler recursion: X_{i+1} = X_i + a(t_i, X_i) * (mu dt_i + dW_i + dL_i), coefficient taken at the LEFT
+    end point; scalar state for const / diag, vector state (one row per time) for the Libor coefficient"""
+    x = np.array(x0, dtype=float) if coef == "libor" else x0
+    xs = [np.array(x, copy=True) if coef == "libor" else x]
     for i in range(len(times) - 1):
-        a = c if coef == "const" else x
+        if coef == "const":
+            a = c
+        elif coef == "diag":
+            a = x
+        else:
+            sig = SIGMA[:len(x)].copy()
+            sig[np.asarray(tenors[:-1]) <= times[i]] = 0.0  # a rate stops moving once it has fixed
+            a = sig * x
         x = x + a * mu * (times[i + 1] - times[i]) + a * (dW[i] + dL[i])
-        xs.append(x)
-    return np.array(xs)
+        xs.append(np.array(x, copy=True) if coef == "libor" else x)
+    return np.array(xs).T if coef == "libor" else np.array(xs)
 
 
 def execute(wd, sc):
@@ -158,7 +172,7 @@ def execute(wd, sc):
     wd.c16 = {"driver": [], "drifts": {}}
     mt, kw = DRIVERS[sc["driver"]]
     x0, coef, c, T = sc["x0"], sc["coef"], sc["c"], sc["maturity"]
-    cls = f"a={'constant' if coef == 'const' else 'x'}"
+    cls = "a=" + {"const": "constant", "diag": "x", "libor": "sigma(t)*x"}[coef]
 
     def add(sig, detail):
         if not any(v["sig"] == sig for v in V):
@@ -166,10 +180,22 @@ def execute(wd, sc):
 
     try:
         driver = create_levy_model(ModelType[mt])(**kw)
-        a = Constant(1, 1, c) if coef == "const" else DiagX(1)
+        tenors = None
+        if coef == "libor":
+            from rpylib.model.levydrivensde.levydrivensde import LiborSDEFunction
+
+            m = sc["m"]
+            tenors = np.array(sc["tenor_fracs"][:m + 1]) * T
+            x0 = X0_LIBOR[:m].copy()
+            a = LiborSDEFunction(sigma=SIGMA[:m].reshape(m, 1).copy(), tenors=tenors)
+            wd.probes["c16.time_dependent_coefficient"] += 1
+            if np.any(tenors[:-1] < T):
+                wd.probes["c16.fixing_inside_the_horizon"] += 1
+        else:
+            a = Constant(1, 1, c) if coef == "const" else DiagX(1)
         model = LevyDrivenSDEModel(driver=driver, x0=x0, a=a)
         grid = CTMCUniformGrid(h=sc["h"], model=model.driver)
-        product = Product(payoff_underlying=Spot(), payoff=PayoffOnTheFly(lambda u: float(np.ravel(u)[0])), maturity=T)
+        product = Product(payoff_underlying=Spot(), payoff=PayoffOnTheFly(lambda u: float(np.sum(u))), maturity=T)
         method = SamplingMethod.BINARYSEARCHTREEADAPTED1D
         if sc["engine"] == "standard":
             proc = MarkovChainSDE(model, method, grid)
@@ -214,17 +240,18 @@ def execute(wd, sc):
             if kind == "single":
                 mu = d[2]
                 dW, dL = np.diff(dp["diff"].reshape(-1)), np.diff(dp["jump"].reshape(-1))
-                ref = _euler(x0, coef, c, mu, times, dW, dL)
-                got = x0 + (s["drift"] + s["diff"] + s["jump"]).reshape(-1)
+                ref = _euler(x0, coef, c, mu, times, dW, dL, tenors)
+                tot1 = s["drift"] + s["diff"] + s["jump"]
+                got = (np.asarray(x0).reshape(-1, 1) + tot1) if coef == "libor" else x0 + tot1.reshape(-1)
                 wd.probes["c16.single_path_checked"] += 1
                 scale = 1.0 + np.max(np.abs(ref))
                 if got.shape != ref.shape or not np.allclose(got, ref, rtol=1e-10, atol=1e-12 * scale):
                     add(f"C16.euler|single-process path is not the Euler scheme of its driver path|{cls}",
-                        {"got": got.tolist()[:6], "expected": ref.tolist()[:6], "mu": mu})
+                        {"got": np.ravel(got).tolist()[:6], "expected": np.ravel(ref).tolist()[:6], "mu": mu})
                 # closed forms
                 Y = mu * times + dp["diff"].reshape(-1) + dp["jump"].reshape(-1)
-                cf = x0 + c * Y[-1] if coef == "const" else x0 * np.prod(1.0 + np.diff(Y))
-                if not np.isclose(got[-1], cf, rtol=1e-9, atol=1e-11 * scale):
+                cf = None if coef == "libor" else (x0 + c * Y[-1] if coef == "const" else x0 * np.prod(1.0 + np.diff(Y)))
+                if cf is not None and not np.isclose(got[-1], cf, rtol=1e-9, atol=1e-11 * scale):
                     add(f"C16.closed|terminal value differs from the closed form of the scheme|single|{cls}",
                         {"got": float(got[-1]), "closed_form": float(cf)})
             else:
@@ -239,20 +266,20 @@ def execute(wd, sc):
                         wd.probes["c16.coarse_drift_unknown"] += 1
                         continue
                     dW, dL = np.diff(dp["diff"][ci]), np.diff(dp["jump"][ci])
-                    ref = _euler(x0, coef, c, mu, times, dW, dL)
-                    got = x0 + np.asarray(tot[ci]).reshape(-1)
+                    ref = _euler(x0, coef, c, mu, times, dW, dL, tenors)
+                    got = (np.asarray(x0).reshape(-1, 1) + np.asarray(tot[ci])) if coef == "libor" else x0 + np.asarray(tot[ci]).reshape(-1)
                     scale = 1.0 + np.max(np.abs(ref))
                     if got.shape != ref.shape or not np.allclose(got, ref, rtol=1e-10, atol=1e-12 * scale):
                         mech = "other"
                         if name == "coarse":
-                            alt = _euler(x0, coef, c, mu_f, times, dW, dL)
+                            alt = _euler(x0, coef, c, mu_f, times, dW, dL, tenors)
                             if got.shape == alt.shape and np.allclose(got, alt, rtol=1e-10, atol=1e-12 * scale):
                                 mech = "coarse-component-uses-the-fine-level-drift"
                         add(f"C16.euler|{name} component of the coupled pair is not the Euler scheme of its driver path|{mech}|{cls}",
-                            {"level": level, "got": got.tolist()[:6], "expected": ref.tolist()[:6], "mu": mu})
+                            {"level": level, "got": np.ravel(got).tolist()[:6], "expected": np.ravel(ref).tolist()[:6], "mu": mu})
                     Y = mu * times + dp["diff"][ci] + dp["jump"][ci]
-                    cf = x0 + c * Y[-1] if coef == "const" else x0 * np.prod(1.0 + np.diff(Y))
-                    if not np.isclose(got[-1], cf, rtol=1e-9, atol=1e-11 * scale):
+                    cf = None if coef == "libor" else (x0 + c * Y[-1] if coef == "const" else x0 * np.prod(1.0 + np.diff(Y)))
+                    if cf is not None and not np.isclose(got[-1], cf, rtol=1e-9, atol=1e-11 * scale):
                         add(f"C16.closed|terminal value differs from the closed form of the scheme|{name}|{cls}",
                             {"level": level, "got": float(got[-1]), "closed_form": float(cf)})
     key = hashlib.sha256(repr((sc["driver"], coef, sc["engine"], sc["max_level"], tuple(pattern))).encode()).hexdigest()[:16]
